@@ -19,6 +19,7 @@ def handle (j : Json) : Except String Json := do
   | "fusion" => Driver.fusion j
   | "da" => Driver.da j
   | "hoist" => Driver.hoist j
+  | "default_order" => Driver.defaultOrder j
   | _ => throw s!"unknown op {op}"
 
 partial def loop (h : IO.FS.Stream) (out : IO.FS.Stream) : IO Unit := do
